@@ -110,3 +110,11 @@ reg('C08', 'exploration', 'G + X (generated struct family + exhaustive value sel
     'Every field-kind sequence of length 1-2 (1-3 plus a reduced length-4 family in the thorough tier) over 17 field kinds and long rotated structs is generated with RLBox\'s reflection macros, an independently declared fixed-width guest struct and offsets computed by the generator\'s own layout routine, under two foreign ABIs; size, alignment and every field offset are compared three ways, and every selection of boundary values is loaded, stored, passed and returned by value with field-by-field comparison; unrepresentable field values must abort.',
     'Guest layouts and the layout routine are written by hand for lp32/wide with 16-bit pointers; structs with const fields only field-wise (RLBox offers no whole-struct paths for them).',
     'DESIGN.md section 3, C08')
+
+ENGINES.append(dict(name='S', path='harness/sched.hpp', serves_properties=['C18'],
+                    kind_free_text='preemption-bounded cooperative scheduler over real OS threads; scheduling points at RLBox shared-lock operations (custom lock type) and harness yields; vector-clock race check on annotated accesses; one forked process per schedule'))
+
+reg('C18', 'model_checking', 'S (preemption-bounded scheduler, stateless exploration of the implementation)', 'stateless model checking of the real code: exhaustive enumeration of thread schedules up to a preemption bound under a controlled scheduler, vector-clock race check',
+    'Every schedule of 2 and 3 threads (each creating, using, destroying and re-creating its own sandbox, with callbacks and nested invocations) with at most 2 preemptions (3 for two threads in the thorough tier) is executed on the real code, one forked process per schedule; each thread must observe exactly what it observes alone, without deadlock, crash or a happens-before race on the process-wide sandbox list; mbox in registry mode (list on the hot path) and the bundled noop backend (thread_local record).',
+    'Scheduling points only at RLBox lock operations and harness yields; unannotated unsynchronised accesses are left to the free-running ThreadSanitizer supplement (thorough, not deciding); weak memory not modelled; fixed scripts, <= 3 threads.',
+    'DESIGN.md section 3, C18')
